@@ -15,8 +15,8 @@ instance instDecEqExcept {ε α : Type} [DecidableEq ε] [DecidableEq α] : Deci
 /-- well-nested event sequences: what an XML parser delivers for a forest of elements -/
 inductive WN : List Ev → Prop where
   | nil : WN []
-  | node (n : String) (h : Bool) (body rest : List Ev) :
-      WN body → WN rest → WN (Ev.start n h :: (body ++ Ev.stop n :: rest))
+  | node (n : String) (h i : Bool) (body rest : List Ev) :
+      WN body → WN rest → WN (Ev.start n h i :: (body ++ Ev.stop n :: rest))
 
 theorem run_append (c : Ctx) (xs ys : List Ev) :
     run c (xs ++ ys) = match run c xs with
@@ -35,8 +35,8 @@ theorem run_append_ok {c c' : Ctx} {xs : List Ev} (h : run c xs = .ok c') (ys : 
   rw [run_append, h]
 
 /-- inside PASSTHROUGH a start tag only increments the counter -/
-theorem startEv_passthrough (c : Ctx) (n : String) (h : Bool) (hs : c.state = "PASSTHROUGH") :
-    startEv c n h = .ok { c with depth := c.depth + 1 } := by
+theorem startEv_passthrough (c : Ctx) (n : String) (h i : Bool) (hs : c.state = "PASSTHROUGH") :
+    startEv c n h i = .ok { c with depth := c.depth + 1 } := by
   simp [startEv, hs]
 
 /-- inside PASSTHROUGH at depth ≥ 2 an end tag only decrements the counter -/
@@ -54,12 +54,12 @@ theorem run_passthrough_wn (evs : List Ev) (hw : WN evs) :
     ∀ (c : Ctx), c.state = "PASSTHROUGH" → 1 ≤ c.depth → run c evs = .ok c := by
   induction hw with
   | nil => intro c _ _; rfl
-  | node n h body rest _ _ ihb ihr =>
+  | node n h i body rest _ _ ihb ihr =>
     intro c hs hd
     -- start: depth + 1
-    have h1 : run c (Ev.start n h :: (body ++ Ev.stop n :: rest))
+    have h1 : run c (Ev.start n h i :: (body ++ Ev.stop n :: rest))
         = run { c with depth := c.depth + 1 } (body ++ Ev.stop n :: rest) := by
-      simp [run, step, startEv_passthrough c n h hs]
+      simp [run, step, startEv_passthrough c n h i hs]
     rw [h1]
     -- body: unchanged
     have hb := ihb { c with depth := c.depth + 1 } hs (by simp)
@@ -83,10 +83,10 @@ theorem stateSwitch_ok {c' : Ctx} {s : String} {r : Ctx} (h : stateSwitch c' s =
   · cases h; rfl
 
 /-- what entering PASSTHROUGH from outside looks like: only state, prev_state, the counter and the log change -/
-theorem startEv_enters_passthrough (c c1 : Ctx) (n : String) (hidden : Bool)
+theorem startEv_enters_passthrough (c c1 : Ctx) (n : String) (hidden intro0 : Bool)
     (hs : c.state ≠ "PASSTHROUGH")
     (hrow : ∀ r, lookup c.state n (!c.stack.isEmpty) = some r → r.prelude = true → r.target ≠ "PASSTHROUGH")
-    (h1 : startEv c n hidden = .ok c1) (hp : c1.state = "PASSTHROUGH") :
+    (h1 : startEv c n hidden intro0 = .ok c1) (hp : c1.state = "PASSTHROUGH") :
     ∃ entry, c1 = { c with prev := c.state, state := "PASSTHROUGH", depth := 1, log := c.log ++ [entry] } := by
   unfold startEv at h1
   rw [if_neg hs] at h1
@@ -116,6 +116,11 @@ theorem startEv_enters_passthrough (c c1 : Ctx) (n : String) (hidden : Bool)
           subst e
           split at hp <;> split at hp <;> simp_all
     · rw [if_neg hpre] at h1
+      by_cases hown : (Gen.c15COwnIntroTest.contains r.handler && intro0) = true
+      · rw [if_pos hown] at h1
+        have := stateSwitch_ok h1
+        exact ⟨"~" ++ n, by simpa using this⟩
+      rw [if_neg hown] at h1
       by_cases hsw' : r.switch = true
       · rw [if_pos hsw'] at h1
         cases hsw : stateSwitch { c with log := c.log ++ ["+" ++ n] } r.target with
@@ -134,10 +139,10 @@ theorem startEv_enters_passthrough (c c1 : Ctx) (n : String) (hidden : Bool)
 theorem wn_append {xs ys : List Ev} (hx : WN xs) (hy : WN ys) : WN (xs ++ ys) := by
   induction hx with
   | nil => simpa using hy
-  | node n h body rest hb _ _ ihr =>
-    have : Ev.start n h :: (body ++ Ev.stop n :: rest) ++ ys = Ev.start n h :: (body ++ Ev.stop n :: (rest ++ ys)) := by
+  | node n h i body rest hb _ _ ihr =>
+    have : Ev.start n h i :: (body ++ Ev.stop n :: rest) ++ ys = Ev.start n h i :: (body ++ Ev.stop n :: (rest ++ ys)) := by
       simp
     rw [this]
-    exact WN.node n h body (rest ++ ys) hb ihr
+    exact WN.node n h i body (rest ++ ys) hb ihr
 
 end GIVerif.GirConsume
